@@ -18,6 +18,7 @@ ToSet(s) == {s[i] : i \in DOMAIN s}
 
 Apply(M, r) ==
   CASE r.e = "reset" -> MonInit(ToSet(r.peers), r.auto)
+    [] M.dead -> M
     [] r.e = "open" -> MonOpen(M, r.p, r.r)
     [] r.e = "close" -> MonClose(M, r.p, r.r)
     [] r.e = "val" -> MonVal(M, r.p, r.v, r.r)
